@@ -371,6 +371,8 @@ class EPoll(BasePoller):
             self._map[fileno] = fd
         else:
             super().discard(fd)
+            with contextlib.suppress(KeyError, NameError):
+                del self._map[fileno]
 
     def addReader(self, source, fd):
         super().addReader(source, fd)
